@@ -5,7 +5,8 @@ from gen import litmus
 def run(ctx):
     ctx.prove(ctx.theorems())
     ctx.build_harness()
-    programs = litmus.family(ctx.seed, ctx.quick)
+    from gen import corpus
+    programs = list(dict.fromkeys(corpus.corpus('C03') + litmus.family(ctx.seed, ctx.quick)))
     ctx.assumptions.append("Spec/RC11.lean (RC11 with the C++20 release sequence, `strong` instance) is trusted as "
                            "the meaning of 'C11-allowed'; its enumerator Oracle/RC11Enum.lean is executable, not yet "
                            "proved complete; programs whose candidate space exceeds the cap are skipped and counted")
